@@ -5,7 +5,8 @@
    none)", refusal is final - and the two ring buffers of the code (pkg/lifecycle/stream/dlq.go:
    one outcome at a time; pkg/lifecycle-poc/funnel/dlq.go: a count at a time with early return),
    transcribed action by action and run in lock step on the same outcome stream.
-   TLC checks exhaustively, for every (N, T) and every outcome sequence up to MaxLen:
+   TLC checks exhaustively, for every (N, T) and every outcome sequence up to MaxLen (MaxLen = 0: of any
+   length - the state space is finite without the step counter):
      V1MatchesPolicy, V2MatchesPolicy  (ring buffer => sliding history)  hence v1 == v2.        *)
 EXTENDS Naturals, Sequences, FiniteSets, TLC
 CONSTANTS MaxN, MaxLen
@@ -40,7 +41,13 @@ Store(w, c, n, nack) ==
 
 B(b) == IF b THEN "ok" ELSE "refused"
 
-Ack == /\ steps < MaxLen /\ steps' = steps + 1
+\* MaxLen = 0: no bound on the length of the outcome sequence.  Every other variable is bounded by N (the
+\* history keeps its last N outcomes, the rings have Size cells), so the reachable state space is finite and
+\* TLC's fixpoint covers outcome sequences of EVERY length for every (N, T) with N <= MaxN.
+Step == /\ (MaxLen = 0 \/ steps < MaxLen)
+        /\ steps' = IF MaxLen = 0 THEN 0 ELSE steps + 1
+
+Ack == /\ Step
        \* bound the history: once frozen nothing changes any more, before that keep the last N
        /\ hist' = IF frozen THEN hist ELSE LastN(Append(hist, FALSE), N)
        /\ LET r == Store(w1, c1, n1, FALSE) IN /\ w1' = r[1] /\ c1' = r[2] /\ n1' = r[3]
@@ -49,7 +56,7 @@ Ack == /\ steps < MaxLen /\ steps' = steps + 1
           ELSE LET r == Store(w2, c2, n2, FALSE) IN /\ w2' = r[1] /\ c2' = r[2] /\ n2' = r[3]
        /\ UNCHANGED <<N, T, frozen, d1, d2, dA>>
 
-Nack == /\ steps < MaxLen /\ steps' = steps + 1 /\ UNCHANGED <<N, T>>
+Nack == /\ Step /\ UNCHANGED <<N, T>>
         /\ LET ok == ~frozen /\ Tolerated(hist) IN
              /\ dA' = B(ok)
              /\ hist' = IF frozen THEN hist ELSE LastN(Append(hist, TRUE), N)
